@@ -27,6 +27,8 @@ pub struct Cfg {
     pub forget_after_ms: u64,
     pub minutes: u64,
     pub latency: u64,
+    /// per-contact one-way latency overriding `latency` (index = contact)
+    pub per_contact_latency: Vec<u64>,
     pub rng_seed: u64,
 }
 
@@ -97,7 +99,8 @@ pub fn build(cfg: &Cfg) -> (Scenario, Vec<Box<dyn Peer>>) {
     sc.sample = vec![(0, 3_000, 1_000)];
     sc.horizon_ms = cfg.minutes * 60_000;
     let lat = cfg.latency;
-    sc.link_latency = Arc::new(move |_, _| lat);
+    let per: Vec<(SocketAddr, u64)> = cfg.per_contact_latency.iter().enumerate().map(|(i, l)| (c_addr(i), *l)).collect();
+    sc.link_latency = Arc::new(move |a, b| per.iter().find(|(c, _)| *c == a || *c == b).map(|(_, l)| *l).unwrap_or(lat));
     (sc, peers)
 }
 
@@ -192,7 +195,7 @@ pub fn judge(cfg: &Cfg, res: &RunResult) -> Vec<(String, String)> {
 }
 
 fn cfg_json(c: &Cfg) -> Value {
-    json!({"contacts": c.contacts.iter().map(|x| json!({"silent_at":x.silent_at,"hearsay":x.hearsay})).collect::<Vec<_>>(), "well_connected": c.well_connected, "search_every_ms": c.search_every_ms, "forget_after_ms": c.forget_after_ms, "minutes": c.minutes, "latency": c.latency, "rng_seed": c.rng_seed})
+    json!({"contacts": c.contacts.iter().map(|x| json!({"silent_at":x.silent_at,"hearsay":x.hearsay})).collect::<Vec<_>>(), "well_connected": c.well_connected, "search_every_ms": c.search_every_ms, "forget_after_ms": c.forget_after_ms, "minutes": c.minutes, "latency": c.latency, "per_contact_latency": c.per_contact_latency, "rng_seed": c.rng_seed})
 }
 fn cfg_parse(v: &Value) -> Cfg {
     Cfg {
@@ -202,6 +205,7 @@ fn cfg_parse(v: &Value) -> Cfg {
         forget_after_ms: v["forget_after_ms"].as_u64().unwrap_or(0),
         minutes: v["minutes"].as_u64().unwrap_or(60),
         latency: v["latency"].as_u64().unwrap_or(20),
+        per_contact_latency: v["per_contact_latency"].as_array().map(|a| a.iter().map(|x| x.as_u64().unwrap()).collect()).unwrap_or_default(),
         rng_seed: v["rng_seed"].as_u64().unwrap_or(1),
     }
 }
@@ -244,7 +248,7 @@ pub fn configs(tier: Tier, seed: u64) -> Vec<Cfg> {
                         }
                         let contacts: Vec<Contact> = (0..k).map(|i| Contact { silent_at: if mask & (1 << i) != 0 { Some(t) } else { None }, hearsay: false }).collect();
                         // everybody silent from the start in the single-contact regime never bootstraps: fine, nothing listed
-                        out.push(Cfg { contacts, well_connected, search_every_ms: search, forget_after_ms: forget, minutes, latency: 20, rng_seed: seed });
+                        out.push(Cfg { contacts, well_connected, search_every_ms: search, forget_after_ms: forget, minutes, latency: 20, per_contact_latency: vec![], rng_seed: seed });
                     }
                 }
             }
@@ -260,6 +264,7 @@ pub fn configs(tier: Tier, seed: u64) -> Vec<Cfg> {
                 forget_after_ms: 300_000,
                 minutes,
                 latency: 20,
+                per_contact_latency: vec![],
                 rng_seed: seed,
             });
         }
@@ -267,14 +272,24 @@ pub fn configs(tier: Tier, seed: u64) -> Vec<Cfg> {
     // latencies (round trips stay below the shortest per-query timeout)
     for latency in [1u64, 200] {
         for well_connected in [false, true] {
-            out.push(Cfg { contacts: vec![Contact { silent_at: None, hearsay: false }, Contact { silent_at: Some(840_000), hearsay: false }], well_connected, search_every_ms: Some(600_000), forget_after_ms: 0, minutes, latency, rng_seed: seed });
+            out.push(Cfg { contacts: vec![Contact { silent_at: None, hearsay: false }, Contact { silent_at: Some(840_000), hearsay: false }], well_connected, search_every_ms: Some(600_000), forget_after_ms: 0, minutes, latency, per_contact_latency: vec![], rng_seed: seed });
+        }
+    }
+    // every assignment of link latencies {1,20,200} ms to two contacts (one of them going silent at 14 min)
+    for l0 in [1u64, 20, 200] {
+        for l1 in [1u64, 20, 200] {
+            for (s0, s1) in [(None, Some(840_000u64)), (Some(840_000u64), None), (None, None)] {
+                for well_connected in [false, true] {
+                    out.push(Cfg { contacts: vec![Contact { silent_at: s0, hearsay: false }, Contact { silent_at: s1, hearsay: false }], well_connected, search_every_ms: None, forget_after_ms: 0, minutes, latency: 20, per_contact_latency: vec![l0, l1], rng_seed: seed });
+                }
+            }
         }
     }
     if tier == Tier::Thorough {
         for k in 6..=8usize {
             for well_connected in [false, true] {
                 let contacts: Vec<Contact> = (0..k).map(|i| Contact { silent_at: if i % 3 == 1 { Some(960_000) } else { None }, hearsay: i % 4 == 3 }).collect();
-                out.push(Cfg { contacts, well_connected, search_every_ms: Some(600_000), forget_after_ms: 600_000, minutes, latency: 20, rng_seed: seed });
+                out.push(Cfg { contacts, well_connected, search_every_ms: Some(600_000), forget_after_ms: 600_000, minutes, latency: 20, per_contact_latency: vec![], rng_seed: seed });
             }
         }
     }
